@@ -1,7 +1,7 @@
 """Which jobs and extra checks decide which property (the sidecar's table of contents)."""
 import importlib
 
-JOB_MODULES = ["contracts.jobs_basic", "contracts.jobs_multi", "contracts.jobs_classes", "contracts.jobs_context", "contracts.jobs_asynctools", "contracts.jobs_core", "contracts.jobs_lru", "contracts.jobs_cached_property", "contracts.jobs_tee"]
+JOB_MODULES = ["contracts.jobs_basic", "contracts.jobs_multi", "contracts.jobs_classes", "contracts.jobs_context", "contracts.jobs_asynctools", "contracts.jobs_core", "contracts.jobs_lru", "contracts.jobs_cached_property", "contracts.jobs_tee", "contracts.jobs_heapq"]
 CANARY = "contracts.jobs_canary"
 
 _cache = {}
